@@ -103,10 +103,16 @@ func harnessOverlay(verifRoot string, dirs []string) (map[string][]byte, error) 
 	if b, err := os.ReadFile(filepath.Join(repoRoot, "dialer.go")); err == nil {
 		src := string(b)
 		// the one method of *Dialer that connects to a single address (dialOne in the pinned tree)
-		re := regexp.MustCompile(`func \((\w+) \*Dialer\) [a-z]\w*\((\w+) string\) \(net\.Conn, error\) \{\n`)
+		re := regexp.MustCompile(`func \((\w+) \*Dialer\) [a-z]\w*\((?:(\w+) context\.Context, )?(\w+) string\) \(net\.Conn, error\) \{\n`)
 		if m := re.FindAllStringSubmatch(src, -1); len(m) == 1 && !strings.Contains(src, "vxDialHook") {
 			sig := m[0][0]
-			src = strings.Replace(src, sig, sig+"\tif vxDialHook != nil {\n\t\treturn vxDialHook("+m[0][2]+")\n\t}\n", 1)
+			ins := "\tif vxDialHook != nil {\n"
+			if ctxName := m[0][2]; ctxName != "" && ctxName != "_" {
+				// a dial that is given a context honours it (contract of net.Dialer.DialContext)
+				ins += "\t\tif err := " + ctxName + ".Err(); err != nil {\n\t\t\treturn nil, err\n\t\t}\n"
+			}
+			ins += "\t\treturn vxDialHook(" + m[0][3] + ")\n\t}\n"
+			src = strings.Replace(src, sig, sig+ins, 1)
 			src += "\n// vxDialHook is installed by verification harnesses (overlay only).\nvar vxDialHook func(addr string) (net.Conn, error)\n\n// VXSetDialHook installs the dial hook (overlay only).\nfunc VXSetDialHook(f func(addr string) (net.Conn, error)) { vxDialHook = f }\n"
 			ov[filepath.Join(repoRoot, "dialer.go")] = []byte(src)
 		}
